@@ -32,6 +32,7 @@ class OracleTracker(Monitor):
         env.due = env.orc.start()
         env.unjustified = []
         env.orc_stopped = False
+        env.inst_route = {(): 0}
 
     def on_started(self, env, act):
         if act.item is not None and act.item != 0:
@@ -52,13 +53,17 @@ class OracleTracker(Monitor):
         if prev is not None and act.item is not None and prev.item is not None and prev.due is not None and not getattr(prev, "task_done", False):
             act.due = prev.due
             return
-        for d in env.due:
-            if d.task == act.task and not d.matched:
-                if env.match_ctx and d.visible() != env.visible_ctx(act):
-                    continue
-                d.matched = True
-                act.due = d
-                return
+        # an execution belongs to the instance whose route it runs on (routes are learnt from
+        # the first execution of each instance)
+        cands = [d for d in env.due if d.task == act.task and not d.matched and not (env.match_ctx and d.visible() != env.visible_ctx(act))]
+        exact = [d for d in cands if env.inst_route.get(d.inst) == act.route]
+        unbound = [d for d in cands if d.inst not in env.inst_route]
+        pick = exact[0] if exact else (unbound[0] if unbound else None)
+        if pick is not None:
+            env.inst_route.setdefault(pick.inst, act.route)
+            pick.matched = True
+            act.due = pick
+            return
         env.unjustified.append(act)
 
     def on_report(self, env, act, status, result):
